@@ -178,6 +178,7 @@ func main() {
 		{"UserInfo", url.UserInfoPercentEncodeSet}, {"Host", url.HostPercentEncodeSet},
 		{"LaxPath", canonicalizer.LaxPathPercentEncodeSet}, {"LaxQuery", canonicalizer.LaxQueryPercentEncodeSet},
 		{"RepeatedQuery", canonicalizer.RepeatedQueryPercentDecodeSet},
+		{"HostDecode", canonicalizer.VerifHostDecodeSet()},
 	}
 	for _, x := range pss {
 		fmt.Fprintf(&t, "Definition pes_%s : peset := %s.\n", x.n, peset(x.s))
